@@ -26,8 +26,10 @@ class RandomSampler(TorchRandomSampler):
         else:
             generator = self.generator
 
+        # honour num_samples (len(self)): draw as many permutations / indices as num_samples asks for
+        num = self.num_samples
         if self.replacement:
-            idxs = torch.randint(high=n, size=(n,), dtype=torch.int64, generator=generator)
+            idxs = torch.randint(high=n, size=(max(n, num),), dtype=torch.int64, generator=generator)
         else:
-            idxs = torch.randperm(n, generator=generator)
-        yield from idxs.repeat_interleave(repeats=self.num_repeats)[:n].tolist()
+            idxs = torch.cat([torch.randperm(n, generator=generator) for _ in range((num + n - 1) // n)])
+        yield from idxs.repeat_interleave(repeats=self.num_repeats)[:num].tolist()
